@@ -16,9 +16,20 @@ TARGETS = [
         (r'(?<![\w>.])resume_one\(', 'WQ_resume_one(this, ', 1), (r'^\{', '{ int Q0_ = QN;', 1)],
         marks={'count': 1, 0: dict(name='RALL', frame=['r', 'QN', 'N_INTR'], effects={'WQ_resume_one': ['QN', 'N_INTR']}, pure=[])}),
 ]
-UNITS = {'cv.c': 'cv.c.in'}
+# a resumed waiter is woken with the reason -1 parked in its error_number (waitq::resume_one / semaphore::try_resume ->
+# prelocked_thread_interrupt): thread_interrupt must not replace it.  The kernel is C04's (specs/C04/sched.c.in + its targets),
+# re-run here so that this property sees a change of that function too.
+import importlib.util as _ilu, os as _os
+_sp = _ilu.spec_from_file_location('spec_C04_for_C03', _os.path.join(_os.path.dirname(__file__), '..', 'C04', 'spec.py'))
+_c04 = _ilu.module_from_spec(_sp); _sp.loader.exec_module(_c04)
+_need = ('t_expiration', 'sat_sub', 't_get', 't_expired', 'prelocked_thread_interrupt', 'thread_interrupt', 'prepare_usleep', 'resume_threads_inlined', 'th_min', 'idle_wait')
+TARGETS += [t for t in _c04.TARGETS if t.name in _need and t.name not in [x.name for x in TARGETS]]
+UNITS = {'cv.c': 'cv.c.in', 'sched.c': '../C04/sched.c.in'}
 PROOFS = [
     Proof('cvar_do_wait', 'cv.c', 'h_cvar_wait', kind='L', min_obligations=4),
+    Proof('resume/interrupt_keeps_reason', 'sched.c', 'h_interrupt', kind='L', defines=['STUB_PRELOCKED'], min_obligations=5),
+    Proof('resume/wake_sleeper', 'sched.c', 'h_prelocked', kind='L', min_obligations=4),
+    Proof('resume/prepare_usleep', 'sched.c', 'h_prepare_usleep', kind='L', min_obligations=6),
     Proof('resume', 'cv.c', 'h_resume', kind='L', min_obligations=3),
 ]
 NATIVES = []
